@@ -116,3 +116,159 @@ theorem cos_rad_nonneg (x : ℚ) (h90 : |x| ≤ 90) : 0 ≤ cos (rad (x : ℝ)) 
   have hp := pi_pos
   unfold rad
   apply cos_nonneg_of_neg_pi_div_two_le_of_le <;> nlinarith
+
+/-! ### C. the error budget per band (ℚ) -/
+
+/-- metres per degree of arc on the sphere of radius `R_MAX = 6 399 594 m`, rounded up:
+    `R_MAX · 3.141593 / 180 ≥ R_MAX · π / 180` (≈ 111 694.0 m) -/
+def mPerDeg : ℚ := 6399594 * 3141593 / 1000000 / 180
+
+/-- north-south distance in metres of `d` degrees of latitude (along a meridian) -/
+def nsM (d : ℚ) : ℚ := mPerDeg * |d|
+
+/-- upper bound of the east-west distance in metres of `d` degrees of longitude along the parallel of a
+    latitude in the band NL = n (`cosUB n ≥` the cosine of every latitude of the band) -/
+def ewM (n : Nat) (d : ℚ) : ℚ := mPerDeg * cosUB n * |d|
+
+/-- zone width in longitude for band `n`, format `i` -/
+def dlonOf (n i : Nat) : ℚ := 360 / ((max (n - i) 1 : ℕ) : ℚ)
+
+/-- the quantity that bounds `R²·chord²` (see `close_sphere`): `NS² + (1 + a/c)·EW²` for half a step of
+    `1/s` of a zone on each axis; the factor `cosUB + 1/2000000` accounts for the cosine of the TRUE latitude
+    (`cos` is 1-Lipschitz and half a latitude step is < 1/2000000 rad) -/
+def budget (n i : Nat) (s : ℚ) : ℚ :=
+  (mPerDeg * (dlat i / s)) ^ 2 + (cosUB n + 1 / 2000000) * cosUB n * (mPerDeg * (dlonOf n i / s)) ^ 2
+
+theorem budget_air0 (n : Nat) (h1 : 1 ≤ n) (h59 : n ≤ 59) : budget n 0 262144 ≤ (9628 / 1000) ^ 2 := by
+  unfold budget dlonOf mPerDeg
+  rw [dlat0]; interval_cases n <;> norm_num [cosUB]
+
+theorem budget_air1 (n : Nat) (h1 : 1 ≤ n) (h59 : n ≤ 59) : budget n 1 262144 ≤ (9628 / 1000) ^ 2 := by
+  unfold budget dlonOf mPerDeg
+  rw [dlat1]; interval_cases n <;> norm_num [cosUB]
+
+theorem budget_air (n : Nat) (h1 : 1 ≤ n) (h59 : n ≤ 59) (i : Nat) (hi : i ≤ 1) :
+    budget n i 262144 ≤ (9628 / 1000) ^ 2 := by
+  interval_cases i
+  · exact budget_air0 n h1 h59
+  · exact budget_air1 n h1 h59
+
+/-- per-axis east-west budget: 9.27 m in the two polar bands (NL ≤ 2, |lat| ≥ 86.535°), 5.68 m elsewhere -/
+def ewMax (n : Nat) : ℚ := if 3 ≤ n then 568 / 100 else 927 / 100
+
+theorem ns_air (i : Nat) (hi : i ≤ 1) : mPerDeg * (dlat i / 262144) ≤ 26 / 10 := by
+  unfold mPerDeg
+  interval_cases i
+  · rw [dlat0]; norm_num
+  · rw [dlat1]; norm_num
+
+theorem ew_air0 (n : Nat) (h1 : 1 ≤ n) (h59 : n ≤ 59) :
+    mPerDeg * cosUB n * (dlonOf n 0 / 262144) ≤ ewMax n := by
+  unfold dlonOf mPerDeg
+  interval_cases n <;> norm_num [cosUB, ewMax]
+
+theorem ew_air1 (n : Nat) (h1 : 1 ≤ n) (h59 : n ≤ 59) :
+    mPerDeg * cosUB n * (dlonOf n 1 / 262144) ≤ ewMax n := by
+  unfold dlonOf mPerDeg
+  interval_cases n <;> norm_num [cosUB, ewMax]
+
+theorem ew_air (n : Nat) (h1 : 1 ≤ n) (h59 : n ≤ 59) (i : Nat) (hi : i ≤ 1) :
+    mPerDeg * cosUB n * (dlonOf n i / 262144) ≤ ewMax n := by
+  interval_cases i
+  · exact ew_air0 n h1 h59
+  · exact ew_air1 n h1 h59
+
+theorem cosUB_nonneg (n : Nat) (h1 : 1 ≤ n) (h59 : n ≤ 59) : 0 ≤ cosUB n := by
+  interval_cases n <;> norm_num [cosUB]
+
+/-- surface (half a step = 1/2^20 of the airborne zone): a quarter of the airborne lengths -/
+theorem budget_surf (n i : Nat) : budget n i 1048576 = budget n i 262144 / 16 := by
+  unfold budget; ring
+
+theorem dlon_eq_dlonOf (i : Nat) (rl : ℚ) : dlon i rl = dlonOf (NL rl) i := by
+  rw [dlon_eq]; rfl
+
+theorem dlonOf_pos (n i : Nat) : 0 < dlonOf n i := by
+  unfold dlonOf
+  have : (1 : ℚ) ≤ ((max (n - i) 1 : ℕ) : ℚ) := by exact_mod_cast le_max_right _ _
+  positivity
+
+/-! ### D. the distance on the sphere (ℝ) -/
+
+open Real Rs1090.Proofs.Geo in
+/-- **From degrees to the sphere.**  `(lat, lon)` the true point, `(rl, ro)` the recovered one, all in
+    degrees; `rl` within `Dlat_i/s` of `lat`, `ro` within `Dlon/s` of `lon` up to `k` turns, `s ≥ 2^18`.  Then
+    `R_MAX² · chord² ≤ budget (NL rl) i s`, the chord taken on the unit sphere between the two points. -/
+theorem close_sphere (i : Nat) (hi : i ≤ 1) (s : ℚ) (hs : 262144 ≤ s) (lat lon rl ro : ℚ) (k : ℤ)
+    (hlat : |lat| ≤ 90) (hrl : |rl| ≤ 90) (hA : |rl - lat| ≤ dlat i / s)
+    (hB : |ro - (lon + 360 * k)| ≤ dlonOf (NL rl) i / s) :
+    (6399594 : ℝ) ^ 2 * chordSq (rad lat) (rad lon) (rad rl) (rad ro)
+      ≤ ((budget (NL rl) i s : ℚ) : ℝ) := by
+  obtain ⟨h1, h59⟩ := NL_range rl
+  have hs0 : (0 : ℚ) < s := by linarith
+  set n := NL rl with hn
+  -- the rational half steps, cast to ℝ
+  have hA' : |(lat : ℝ) - rl| ≤ ((dlat i / s : ℚ) : ℝ) := by
+    rw [abs_sub_comm]; exact_mod_cast hA
+  have hB' : |(lon : ℝ) + 360 * k - ro| ≤ ((dlonOf n i / s : ℚ) : ℝ) := by
+    rw [abs_sub_comm]; exact_mod_cast hB
+  have hA0 : (0 : ℝ) ≤ ((dlat i / s : ℚ) : ℝ) := le_trans (abs_nonneg _) hA'
+  have hB0 : (0 : ℝ) ≤ ((dlonOf n i / s : ℚ) : ℝ) := le_trans (abs_nonneg _) hB'
+  have hAs : ((dlat i / s : ℚ) : ℝ) ≤ 611 / 100 / 262144 := by
+    have : dlat i / s ≤ 611 / 100 / 262144 := by
+      have hd : dlat i ≤ 611 / 100 := by
+        interval_cases i
+        · rw [dlat0]; norm_num
+        · rw [dlat1]; norm_num
+      have hd0 := dlat_pos i hi
+      calc dlat i / s ≤ dlat i / 262144 := div_le_div_of_nonneg_left hd0.le (by norm_num) hs
+        _ ≤ 611 / 100 / 262144 := div_le_div_of_nonneg_right hd (by norm_num)
+    calc ((dlat i / s : ℚ) : ℝ) ≤ ((611 / 100 / 262144 : ℚ) : ℝ) := Rat.cast_le.mpr this
+      _ = 611 / 100 / 262144 := by norm_num
+  have hp := pi_pos
+  have hpu := pi_lt_d6
+  set A : ℝ := ((dlat i / s : ℚ) : ℝ) with hAdef
+  set B : ℝ := ((dlonOf n i / s : ℚ) : ℝ) with hBdef
+  set c : ℝ := ((cosUB n : ℚ) : ℝ) with hcdef
+  have hc0 : 0 ≤ c := by rw [hcdef]; exact_mod_cast cosUB_nonneg n h1 h59
+  have hcb : cos (rad (rl : ℝ)) ≤ c := cos_band rl hrl
+  have ha : |rad (lat : ℝ) - rad rl| ≤ A * (π / 180) := by
+    have e : rad (lat : ℝ) - rad rl = ((lat : ℝ) - rl) * (π / 180) := by unfold rad; ring
+    rw [e, abs_mul, abs_of_pos (by positivity : (0 : ℝ) < π / 180)]
+    exact mul_le_mul_of_nonneg_right hA' (by positivity)
+  have hb : |rad (lon : ℝ) + 2 * π * k - rad ro| ≤ B * (π / 180) := by
+    have e : rad (lon : ℝ) + 2 * π * k - rad ro = ((lon : ℝ) + 360 * k - ro) * (π / 180) := by
+      unfold rad; ring
+    rw [e, abs_mul, abs_of_pos (by positivity : (0 : ℝ) < π / 180)]
+    exact mul_le_mul_of_nonneg_right hB' (by positivity)
+  have key := chordSq_le_of_bounds (rad lat) (rad lon) (rad rl) (rad ro) (A * (π / 180)) (B * (π / 180))
+    c k (cos_rad_nonneg lat hlat) (cos_rad_nonneg rl hrl) ha hb hcb
+  -- constants
+  have hK : (6399594 : ℝ) * (π / 180) ≤ ((mPerDeg : ℚ) : ℝ) := by
+    unfold mPerDeg; push_cast; nlinarith
+  have hK0 : (0 : ℝ) ≤ 6399594 * (π / 180) := by positivity
+  have ham : A * (π / 180) ≤ 1 / 2000000 := by
+    have : A * (π / 180) ≤ 611 / 100 / 262144 * (3.141593 / 180) :=
+      mul_le_mul hAs (by linarith) (by positivity) (by norm_num)
+    refine le_trans this (by norm_num)
+  have e : ((budget n i s : ℚ) : ℝ)
+      = ((mPerDeg : ℚ) : ℝ) ^ 2 * A ^ 2 + (c + 1 / 2000000) * c * (((mPerDeg : ℚ) : ℝ) ^ 2 * B ^ 2) := by
+    rw [hAdef, hBdef, hcdef]; unfold budget; push_cast; ring
+  rw [e]
+  have t1 : (6399594 : ℝ) ^ 2 * (A * (π / 180)) ^ 2 ≤ ((mPerDeg : ℚ) : ℝ) ^ 2 * A ^ 2 := by
+    have : (6399594 * (π / 180)) ^ 2 ≤ ((mPerDeg : ℚ) : ℝ) ^ 2 := pow_le_pow_left₀ hK0 hK 2
+    nlinarith [sq_nonneg A]
+  have t2 : (6399594 : ℝ) ^ 2 * (B * (π / 180)) ^ 2 ≤ ((mPerDeg : ℚ) : ℝ) ^ 2 * B ^ 2 := by
+    have : (6399594 * (π / 180)) ^ 2 ≤ ((mPerDeg : ℚ) : ℝ) ^ 2 := pow_le_pow_left₀ hK0 hK 2
+    nlinarith [sq_nonneg B]
+  have t3 : (c + A * (π / 180)) * c ≤ (c + 1 / 2000000) * c :=
+    mul_le_mul_of_nonneg_right (by linarith) hc0
+  have t4 : (c + A * (π / 180)) * c * ((6399594 : ℝ) ^ 2 * (B * (π / 180)) ^ 2)
+      ≤ (c + 1 / 2000000) * c * (((mPerDeg : ℚ) : ℝ) ^ 2 * B ^ 2) :=
+    mul_le_mul t3 t2 (by positivity) (by positivity)
+  calc (6399594 : ℝ) ^ 2 * chordSq (rad lat) (rad lon) (rad rl) (rad ro)
+      ≤ (6399594 : ℝ) ^ 2 * ((A * (π / 180)) ^ 2 + (c + A * (π / 180)) * c * (B * (π / 180)) ^ 2) :=
+        mul_le_mul_of_nonneg_left key (by positivity)
+    _ = (6399594 : ℝ) ^ 2 * (A * (π / 180)) ^ 2
+          + (c + A * (π / 180)) * c * ((6399594 : ℝ) ^ 2 * (B * (π / 180)) ^ 2) := by ring
+    _ ≤ _ := add_le_add t1 t4
